@@ -118,6 +118,9 @@ type c06SigPlan struct {
 	Secret  string   `json:"secret"`
 	Scopes  []string `json:"scopes"`
 	AgeS    int64    `json:"ageS"`
+	// Clock != "": the signature time is UTC midnight of today + DayOff days + Clock ("15:04:05"), not now - AgeS
+	DayOff int    `json:"dayOff,omitempty"`
+	Clock  string `json:"clock,omitempty"`
 	Expires int64    `json:"expires"`
 	Signed  []string `json:"signed"`
 	BodyAs  string   `json:"bodyAs"` // actual | empty | unsigned
